@@ -15,6 +15,8 @@ trait Rat: Sized + Clone {
     fn preds(&self) -> String;
     /// TryFrom<f32> / TryFrom<f64> from the bit pattern
     fn fromf(bits: &str, single: bool) -> String;
+    /// From<IBig> / From<UBig> / From<i64> / From<u64> / From<i128> / From<u128> (the primitive forms when the value fits)
+    fn fromint(v: &str, unsigned: bool) -> String;
 }
 fn f32_of(s: &str) -> f32 {
     f32::from_bits(u32::from_str_radix(s, 16).expect("u32"))
@@ -31,6 +33,24 @@ impl Rat for RBig {
     }
     fn preds(&self) -> String {
         format!("{} {} {}", self.is_zero() as u8, self.is_one() as u8, self.is_int() as u8)
+    }
+    fn fromint(v: &str, unsigned: bool) -> String {
+        let big = if unsigned { RBig::from(ubig(v)) } else { RBig::from(ibig(v)) };
+        let i = ibig(v);
+        // the primitive conversions must store the same pair
+        if let Ok(p) = i64::try_from(&i) {
+            assert_eq!(hq(&RBig::from(p)), hq(&big), "From<i64> differs from From<IBig>");
+        }
+        if let Ok(p) = u64::try_from(&i) {
+            assert_eq!(hq(&RBig::from(p)), hq(&big), "From<u64> differs from From<IBig>");
+        }
+        if let Ok(p) = i128::try_from(&i) {
+            assert_eq!(hq(&RBig::from(p)), hq(&big), "From<i128> differs from From<IBig>");
+        }
+        if let Ok(p) = u128::try_from(&i) {
+            assert_eq!(hq(&RBig::from(p)), hq(&big), "From<u128> differs from From<IBig>");
+        }
+        format!("ok {}", hq(&big))
     }
     fn fromf(bits: &str, single: bool) -> String {
         let r = if single { RBig::try_from(f32_of(bits)) } else { RBig::try_from(f64_of(bits)) };
@@ -49,6 +69,24 @@ impl Rat for Relaxed {
     }
     fn preds(&self) -> String {
         format!("{} {} -", self.is_zero() as u8, self.is_one() as u8)
+    }
+    fn fromint(v: &str, unsigned: bool) -> String {
+        let big = if unsigned { Relaxed::from(ubig(v)) } else { Relaxed::from(ibig(v)) };
+        let i = ibig(v);
+        // the primitive conversions must store the same pair
+        if let Ok(p) = i64::try_from(&i) {
+            assert_eq!(hqr(&Relaxed::from(p)), hqr(&big), "From<i64> differs from From<IBig>");
+        }
+        if let Ok(p) = u64::try_from(&i) {
+            assert_eq!(hqr(&Relaxed::from(p)), hqr(&big), "From<u64> differs from From<IBig>");
+        }
+        if let Ok(p) = i128::try_from(&i) {
+            assert_eq!(hqr(&Relaxed::from(p)), hqr(&big), "From<i128> differs from From<IBig>");
+        }
+        if let Ok(p) = u128::try_from(&i) {
+            assert_eq!(hqr(&Relaxed::from(p)), hqr(&big), "From<u128> differs from From<IBig>");
+        }
+        format!("ok {}", hqr(&big))
     }
     fn fromf(bits: &str, single: bool) -> String {
         let r = if single { Relaxed::try_from(f32_of(bits)) } else { Relaxed::try_from(f64_of(bits)) };
@@ -216,6 +254,8 @@ macro_rules! ops_for {
                 format!("ok {}", <$T>::from_parts_const(sign_of(a[0]), u128_of(a[1]), u128_of(a[2])).show())
             }
             "preds" => format!("ok {}", <$T>::mk(a[0], a[1]).preds()),
+            "fromi" => <$T>::fromint(a[0], false),
+            "fromu" => <$T>::fromint(a[0], true),
             "fromf32" => <$T>::fromf(a[0], true),
             "fromf64" => <$T>::fromf(a[0], false),
             "split" => {
